@@ -9,6 +9,8 @@ CONSTANTS
   Kinds = {"node"}
   MaxCalls = 12
   WideView = FALSE
+  EnvActions = FALSE
+  Offsets2 = {}
 VIEW View
 INVARIANTS TypeOK Emit
 CHECK_DEADLOCK FALSE
